@@ -80,3 +80,22 @@ Proof.
   split; [cbn; intuition (try lia)|]. split; [intros; unfold ex_b; constructor|].
   repeat split; vm_compute; reflexivity.
 Qed.
+
+(* ---------------- source tie ----------------
+   _query_linear (countmin.py l.275-281) as regenerated from the source AST on this run (generated/KernelsCms.v):
+   the initial value of the running minimum and the body of the row loop (parameters: the running minimum and the
+   cell cms[row, buckets[row]]) are what the modelled query iterates over the rows 0..depth-1 *)
+From Sketchnu Require KernelsCms KernelTieCmsQuery.
+Theorem C01_query_source_tie :
+  KernelsCms.gen_query_linear_init CmsLinear.cap = CmsLinear.cap /\
+  (forall acc c : Z, KernelsCms.gen_query_linear_step acc c = if c <? acc then c else acc) /\
+  (forall depth bucket (s : CmsLinear.sk) (k : key), CmsLinear.query depth bucket s k =
+     fold_left (fun acc r => KernelsCms.gen_query_linear_step acc (CmsLinear.cms s r (bucket r k)))
+               (seq 0 depth) (KernelsCms.gen_query_linear_init CmsLinear.cap)).
+Proof. exact KernelTieCmsQuery.tie_query. Qed.
+Print Assumptions C01_query_source_tie.
+
+Example C01_query_source_tie_nonvacuous :
+  KernelsCms.gen_query_linear_init (2^32 - 1) = 2^32 - 1 /\
+  map (fun ac => KernelsCms.gen_query_linear_step (fst ac) (snd ac)) [(7, 3); (3, 7); (5, 5); (CmsLinear.cap, 0)] = [3; 3; 5; 0].
+Proof. vm_compute. split; reflexivity. Qed.
